@@ -130,6 +130,7 @@ type ModuleSvcSpec struct {
 
 // RigConfig fixes the in-memory (non-store) configuration of the service keeper for a scenario.
 type RigConfig struct {
+	Reentrant bool // the other module reacts inside its callbacks: state callback -> kills that context; response callback with an error -> kills its other contexts
 	ResponseOnlyModules []string // modules that registered a response callback but no state callback
 	CallbackModules []string
 	ModuleServices  []ModuleSvcSpec
@@ -190,7 +191,6 @@ func NewRig(cfg RigConfig) *Rig {
 
 	for _, m := range cfg.CallbackModules {
 		mod := m
-		_ = mod
 		if err := r.sk.RegisterResponseCallback(m, func(ctx sdk.Context, id tmbytes.HexBytes, outs []string, err error) {
 			rec, _ := ctx.Context().Value(recorderKey{}).(*recorder)
 			if rec == nil {
@@ -204,6 +204,23 @@ func NewRig(cfg RigConfig) *Rig {
 				c.BatchCounter = rc.BatchCounter
 			}
 			rec.log = append(rec.log, c)
+			if cfg.Reentrant && err != nil {
+				// the module gives up on its other contexts
+				var others [][]byte
+				var consumers []sdk.AccAddress
+				r.sk.IterateRequestContexts(ctx, func(oid tmbytes.HexBytes, oc servicetypes.RequestContext) bool {
+					if oc.ModuleName == mod && !bytes.Equal(oid, id) {
+						others = append(others, append([]byte{}, oid...))
+						consumers = append(consumers, oc.Consumer)
+					}
+					return false
+				})
+				for i := range others {
+					if r.sk.KillRequestContext(ctx, others[i], consumers[i]) == nil {
+						rec.log = append(rec.log, CallbackRec{Kind: "kill", Ctx: hexs(others[i])})
+					}
+				}
+			}
 		}); err != nil {
 			panic(err)
 		}
@@ -217,6 +234,11 @@ func NewRig(cfg RigConfig) *Rig {
 				c.BatchCounter = rc.BatchCounter
 			}
 			rec.log = append(rec.log, c)
+			if rc, ok := r.sk.GetRequestContext(ctx, id); ok && cfg.Reentrant {
+				if r.sk.KillRequestContext(ctx, id, rc.Consumer) == nil {
+					rec.log = append(rec.log, CallbackRec{Kind: "kill", Ctx: hexs(id)})
+				}
+			}
 		}); err != nil {
 			panic(err)
 		}
